@@ -114,8 +114,43 @@ func RunDriver(r *core.Run, vgen string, name string, cases []specgen.Case, opts
 		pkg := name + "/g/" + filepath.Base(dr.G.P.Out)
 		dr.Output = sections[pkg]
 		readDriverLog(dr, filepath.Join(dr.G.P.Out, "verif_out.jsonl"))
+		if !dr.Ran && runtimeInternalCrash(dr.Output) {
+			// The Go runtime itself gave up (allocator / scheduler invariant), which
+			// no Go code without unsafe can cause by itself and which was observed
+			// on this VM under heavy load (DESIGN §13.3). Run the package again:
+			// only a crash that comes back is reported.
+			first, _ := crashExcerpt(dr.Output)
+			rargs := append(append([]string{}, args[:len(args)-1]...), "./g/"+filepath.Base(dr.G.P.Out))
+			_ = os.Remove(filepath.Join(dr.G.P.Out, "verif_out.jsonl"))
+			out2, _ := core.RunCmd(root, timeout+5*time.Minute, opts.Env, "go", rargs...)
+			dr.Output = out2
+			dr.Viols, dr.Samples, dr.Stats, dr.Fatal = nil, nil, nil, ""
+			readDriverLog(dr, filepath.Join(dr.G.P.Out, "verif_out.jsonl"))
+			r.Note("package %s (%s): test binary died with a runtime-internal fault (%s); second run %s", filepath.Base(dr.G.P.Out), dr.G.P.Case.ID, first, map[bool]string{true: "completed", false: "died again"}[dr.Ran])
+			if dr.Ran {
+				if dr.Stats == nil {
+					dr.Stats = map[string]int{}
+				}
+				dr.Stats["runtime_internal_crash_then_clean_rerun"]++
+			}
+		}
 	}
 	return res, nil
+}
+
+// runtimeInternalCrash tells a fault of the Go runtime's own bookkeeping from
+// the fatal errors that Go code can cause (those stay violations at once).
+func runtimeInternalCrash(out string) bool {
+	h, _ := crashExcerpt(out)
+	if !strings.HasPrefix(h, "fatal error:") && !strings.HasPrefix(h, "runtime: ") {
+		return false
+	}
+	for _, user := range []string{"concurrent map", "stack overflow", "all goroutines are asleep", "out of memory", "unlock of unlocked", "sync:", "checkptr", "cannot allocate memory", "newstack", "goroutine stack exceeds"} {
+		if strings.Contains(out[:min(len(out), 4000)], user) {
+			return false
+		}
+	}
+	return true
 }
 
 func splitTestOutput(out, mod string) map[string]string {
@@ -222,7 +257,11 @@ func Summarize(r *core.Run, res []*DriverResult, classFilter func(class string) 
 			if msg == "" {
 				msg = firstBuildError(dr.Output)
 			}
-			r.Report(core.Violation{Case: c.ID, Class: "not-runnable", Message: core.NormMessage(msg), Observed: core.Trunc(dr.Output, 3000), Spec: string(c.SpecBytes()), Flags: c.Flags})
+			obs := core.Trunc(dr.Output, 3000)
+			if _, ex := crashExcerpt(dr.Output); ex != "" {
+				obs = core.Trunc(ex, 6000)
+			}
+			r.Report(core.Violation{Case: c.ID, Class: "not-runnable", Message: core.NormMessage(msg), Observed: obs, Spec: string(c.SpecBytes()), Flags: c.Flags})
 			continue
 		}
 		s.Ran++
@@ -258,7 +297,28 @@ func Summarize(r *core.Run, res []*DriverResult, classFilter func(class string) 
 	return s
 }
 
+// crashExcerpt finds the runtime's own headline of a dying test binary
+// ("fatal error: ...", "panic: ...", race-detector limit) and the lines that
+// follow it; log noise before it is dropped.
+func crashExcerpt(out string) (string, string) {
+	lines := strings.Split(out, "\n")
+	for i, l := range lines {
+		t := strings.TrimSpace(l)
+		if strings.HasPrefix(t, "fatal error:") || strings.HasPrefix(t, "panic:") || strings.HasPrefix(t, "race: limit on") || strings.HasPrefix(t, "runtime: ") || strings.HasPrefix(t, "signal:") || strings.Contains(t, "test timed out after") {
+			end := i + 80
+			if end > len(lines) {
+				end = len(lines)
+			}
+			return t, strings.Join(lines[i:end], "\n")
+		}
+	}
+	return "", ""
+}
+
 func firstBuildError(out string) string {
+	if h, _ := crashExcerpt(out); h != "" {
+		return h
+	}
 	for _, l := range strings.Split(out, "\n") {
 		if strings.Contains(l, ".go:") {
 			return buildPosRe.ReplaceAllString(strings.TrimSpace(l), "$1: ")
